@@ -3,6 +3,7 @@ package main
 // Property registry: work units, bounds and vacuity labels per property.
 
 import (
+	"fmt"
 	"strings"
 	"time"
 )
@@ -332,9 +333,9 @@ func init() {
 		Units: func(tier string, seed int64, sh *Shared) []Unit {
 			return shapeUnits(tier, "VerifC03", [][]string{{"v"}, {"f"}}, [][]string{{"v"}})
 		},
-		Reach:  []string{"trace"},
-		Bounds: shapeBounds(map[string]interface{}{"effects": "every VariableFetcher.Get and every call of the registered operators p,q (arguments, result/failure) as symbolic terms; fetches may fail in mode f"}),
-		Rule:   "one unit per (shape, fault mode); each unit runs all 16 subsets; a state is one symbolic path; the oracle tree is re-read from Dump",
+		Reach:       []string{"trace"},
+		Bounds:      shapeBounds(map[string]interface{}{"effects": "every VariableFetcher.Get and every call of the registered operators p,q (arguments, result/failure) as symbolic terms; fetches may fail in mode f"}),
+		Rule:        "one unit per (shape, fault mode); each unit runs all 16 subsets; a state is one symbolic path; the oracle tree is re-read from Dump",
 		Assumptions: []string{"a two-leaf and/or under FastEvaluation may fetch both leaves (stated by the property); both the strict and the relaxed trace are accepted there"},
 		WallBudget:  shapeBudget,
 	})
@@ -344,9 +345,9 @@ func init() {
 			c := tierConfigs(tier)
 			return shapeUnitsMax(tier, "VerifC04", [][]string{{"split", c}, {"all", c}}, [][]string{{"split", c}}, 7)
 		},
-		Reach:  []string{"definite", "completion-succeeds", "larger-mask-definite", "all-available"},
-		Bounds: shapeBounds(map[string]interface{}{"availability": "arbitrary mask (one symbolic Boolean per variable), arbitrary larger mask, completions as fresh symbols"}),
-		Rule:   "one unit per (shape, variant); all 16 subsets per unit; a state is one symbolic path through TryEval / Eval / TryEval",
+		Reach:       []string{"definite", "completion-succeeds", "larger-mask-definite", "all-available"},
+		Bounds:      shapeBounds(map[string]interface{}{"availability": "arbitrary mask (one symbolic Boolean per variable), arbitrary larger mask, completions as fresh symbols"}),
+		Rule:        "one unit per (shape, variant); all 16 subsets per unit; a state is one symbolic path through TryEval / Eval / TryEval",
 		Assumptions: []string{"Eval on the completion succeeds (property quantifier)"},
 		WallBudget:  shapeBudget,
 	})
@@ -356,9 +357,9 @@ func init() {
 			c := tierConfigs(tier)
 			return shapeUnitsMax(tier, "VerifC05", [][]string{{c}}, [][]string{{c}}, 7)
 		},
-		Reach:  []string{"kleene-definite", "kleene-undecided", "dne"},
-		Bounds: shapeBounds(map[string]interface{}{"availability": "arbitrary mask (one symbolic Boolean per variable)"}),
-		Rule:   "one unit per shape; all 16 subsets per unit; reference = strong Kleene evaluation of the source tree",
+		Reach:       []string{"kleene-definite", "kleene-undecided", "dne"},
+		Bounds:      shapeBounds(map[string]interface{}{"availability": "arbitrary mask (one symbolic Boolean per variable)"}),
+		Rule:        "one unit per shape; all 16 subsets per unit; reference = strong Kleene evaluation of the source tree",
 		Assumptions: []string{"no sub-expression fails under the underlying binding (property quantifier; assumed via strict reference evaluation)"},
 		WallBudget:  shapeBudget,
 	})
@@ -393,10 +394,10 @@ func init() {
 			}
 			return units
 		},
-		Reach:  []string{"evaluated", "history"},
+		Reach: []string{"evaluated", "history"},
 		Bounds: shapeBounds(map[string]interface{}{"monitor": "every Store / MapUpdate / copy / append-in-place / sort swap executed on any path is checked against the set of slots reachable from *Expr at freeze time; stores to package variables outside init are counted",
 			"configurations": "quick: 5 covering optimisation subsets; thorough: all 16; event modes off / ReportEvent / Debug"}),
-		Rule:   "one unit per (shape, variant, event mode, fault mode); a state is one symbolic path of TryEval+Eval+Dump+DumpTable under the frozen-heap monitor",
+		Rule:        "one unit per (shape, variant, event mode, fault mode); a state is one symbolic path of TryEval+Eval+Dump+DumpTable under the frozen-heap monitor",
 		Assumptions: []string{"interleavings are not explored: the schedule quantifier is discharged by non-interference (no call writes memory another call can read, channel sends are synchronisation); user-supplied fetchers/operators that share state are outside the property"},
 		WallBudget:  shapeBudget,
 	})
@@ -424,9 +425,9 @@ func init() {
 			}
 			return units
 		},
-		Reach:  []string{"undeclared", "must-remain", "evaluated"},
-		Bounds: shapeBounds(map[string]interface{}{"leaf_assignment": "every variable/symbolic-constant assignment for ≤2 internal nodes", "evaluations": "2 per compilation"}),
-		Rule:   "one unit per (shape with leaf assignment, stateless declaration); all 16 subsets per unit; symbolic constants make every fold a fork on success/failure",
+		Reach:      []string{"undeclared", "must-remain", "evaluated"},
+		Bounds:     shapeBounds(map[string]interface{}{"leaf_assignment": "every variable/symbolic-constant assignment for ≤2 internal nodes", "evaluations": "2 per compilation"}),
+		Rule:       "one unit per (shape with leaf assignment, stateless declaration); all 16 subsets per unit; symbolic constants make every fold a fork on success/failure",
 		WallBudget: shapeBudget,
 	})
 	registerProp(&PropSpec{
@@ -444,9 +445,9 @@ func init() {
 			}
 			return units
 		},
-		Reach:  []string{"eval-events", "builtin-events"},
-		Bounds: shapeBounds(map[string]interface{}{"consumer": "events are read only after the evaluation has returned (retaining / buffered consumer)", "configurations": "quick: 5 covering subsets; thorough: all 16"}),
-		Rule:   "one unit per (shape, event option, fault mode); a state is one symbolic path through plain Eval, event Eval, reference evaluation and TryEval",
+		Reach:      []string{"eval-events", "builtin-events"},
+		Bounds:     shapeBounds(map[string]interface{}{"consumer": "events are read only after the evaluation has returned (retaining / buffered consumer)", "configurations": "quick: 5 covering subsets; thorough: all 16"}),
+		Rule:       "one unit per (shape, event option, fault mode); a state is one symbolic path through plain Eval, event Eval, reference evaluation and TryEval",
 		WallBudget: shapeBudget,
 	})
 }
@@ -508,9 +509,9 @@ func init() {
 			}
 			return units
 		},
-		Reach:  []string{"recompiled", "folded-to-scalar"},
-		Bounds: shapeBounds(map[string]interface{}{"leaves": "variables and int/bool literals (each single leaf a literal, all literals, all but the last)", "event_modes": "off for all shapes; ReportEvent and Debug for shapes with ≤1 internal node"}),
-		Rule:   "one unit per (shape, event mode); all 16 subsets per unit; a state is one symbolic path through Eval of the original and of the recompiled program",
+		Reach:       []string{"recompiled", "folded-to-scalar"},
+		Bounds:      shapeBounds(map[string]interface{}{"leaves": "variables and int/bool literals (each single leaf a literal, all literals, all but the last)", "event_modes": "off for all shapes; ReportEvent and Debug for shapes with ≤1 internal node"}),
+		Rule:        "one unit per (shape, event mode); all 16 subsets per unit; a state is one symbolic path through Eval of the original and of the recompiled program",
 		Assumptions: []string{"string/list literal contents are covered by the literal sub-check (symbolic characters), see evidence bounds; constants produced by folding a stateless custom operator have no literal form (outside the property)"},
 		WallBudget:  shapeBudget,
 	})
@@ -584,3 +585,66 @@ func init() {
 		WallBudget:  shapeBudget,
 	})
 }
+
+func init() {
+	registerProp(&PropSpec{
+		ID: "C17",
+		Units: func(tier string, seed int64, sh *Shared) []Unit {
+			var units []Unit
+			u := func(a ...string) { units = append(units, Unit{"VerifC17", a}) }
+			small := [][2]int{{0, 0}, {0, 2}, {2, 0}, {1, 1}, {2, 3}, {3, 2}, {4, 4}}
+			for _, p := range small {
+				for _, t := range []string{"i", "s"} {
+					u("overlap", t, itoa2(p[0]), itoa2(p[1]), "")
+				}
+			}
+			big := [][2]int{{1, 99}, {99, 1}, {0, 100}, {100, 0}, {1, 98}}
+			if tier == "thorough" {
+				big = append(big, [2]int{50, 50}, [2]int{2, 97}, [2]int{98, 1}, [2]int{51, 50}, [2]int{60, 40}, [2]int{40, 60}, [2]int{49, 50}, [2]int{50, 49}, [2]int{3, 97})
+			}
+			for _, p := range big {
+				u("overlap", "i", itoa2(p[0]), itoa2(p[1]), "")
+			}
+			u("overlap", "s", "1", "99", "")
+			u("overlap", "s", "50", "50", "")
+			u("overlap", "s", "3", "96", "")
+			for _, n := range []int{0, 1, 2, 5, 99, 100, 101} {
+				for _, t := range []string{"i", "s"} {
+					u("in", t, "0", itoa2(n), "")
+					u("in", t, "0", itoa2(n), "set")
+				}
+			}
+			for _, t := range []string{"i", "s"} {
+				u("overlap", t, "2", "2", "mismatch")
+				u("overlap", t, "60", "60", "mismatch")
+				u("in", t, "0", "2", "mismatch")
+				u("overlap", t, "0", "2", "emptyA")
+				u("overlap", t, "0", "120", "emptyA")
+				u("overlap", t, "2", "0", "emptyB")
+				u("overlap", t, "120", "0", "emptyB")
+				u("in", t, "0", "0", "emptyB")
+			}
+			for _, c := range [][2]string{
+				{"(overlap () (1 2))", "false"}, {"(overlap (1 2) ())", "false"}, {"(overlap () ())", "false"}, {"(overlap () (\"a\"))", "false"}, {"(overlap (\"a\") ())", "false"},
+				{"(overlap li (3 4))", "true"}, {"(overlap li (4 5))", "false"}, {"(overlap ls (\"b\"))", "true"}, {"(overlap ls (\"q\"))", "false"}, {"(overlap li ls)", "error"}, {"(overlap ls li)", "error"},
+				{"(overlap e li)", "false"}, {"(overlap li e)", "false"}, {"(overlap e ls)", "false"},
+				{"(in n li)", "true"}, {"(in 7 li)", "false"}, {"(in s ls)", "true"}, {"(in \"q\" ls)", "false"}, {"(in n ())", "false"}, {"(in s ())", "false"}, {"(in n e)", "false"},
+				{"(in n ls)", "error"}, {"(in s li)", "error"}, {"(in 2 (1 2 3))", "true"}, {"(in \"\" ())", "false"},
+			} {
+				units = append(units, Unit{"VerifC17Expr", []string{c[0], c[1]}})
+			}
+			return units
+		},
+		Reach: []string{"overlap", "in", "mismatch", "expr"},
+		Bounds: func(tier string) map[string]interface{} {
+			return map[string]interface{}{"list_lengths": "overlap: (0,0) (0,2) (2,0) (1,1) (2,3) (3,2) (4,4) and around the 100-element switch (1,99) (99,1) (50,50) (0,100) (100,0) (2,97) (1,98) [+ (98,1) (51,50) (60,40) (40,60) (49,50) (50,49) (3,97) thorough]; in: 0,1,2,5,99,100,101 as list and as pre-built set",
+				"elements": "arbitrary int64 / arbitrary one-byte strings (solver variables), so duplicates and shared/disjoint elements are all covered at each length"}
+		},
+		Rule:       "one unit per (operator, element type, lengths, form); a state is one symbolic path (first-match position in the scan, or probe outcome in the hash path); oracle = the ∃-formula over the elements",
+		TimeoutMs:  60000,
+		Lazy:       true,
+		WallBudget: func(tier string) time.Duration { return 60 * time.Minute },
+	})
+}
+
+func itoa2(n int) string { return fmt.Sprintf("%d", n) }
